@@ -101,13 +101,13 @@ def step (_ : Unit) (ws : List String) : Unit × String :=
     | some b, some f =>
       let o := optsOf b
       let r := doctor (dbg == "1") o f
-      let pl := planOf o (probe o f)
-      let v := match verify r.file with | none => "error" | some true => "passed" | some false => "failed"
+      let pl := planOf o (probe o f.cond)
+      let v := match verify r.file.cond with | none => "error" | some true => "passed" | some false => "failed"
       let outS := match r.out with
         | .report s w ran => s!"{showStatus s} {showWhy w} | {showPlan pl} | {showRan ran}"
         | .error => s!"error - | {showPlan pl} | -"
         | .panic => "panic - | - | -"
-      ((), s!"{outS} | {showFile r.file} | opens={showBit (opens r.file)} verify={v} | logical={showPairs (logical r.file)}")
+      ((), s!"{outS} | {showFile r.file} | opens={showBit (opens r.file.cond)} verify={v} | logical={showPairs (logical r.file)}")
     | _, _ => ((), "bad-op")
   | ["logical", fr, pe, fl] =>
     match parseFile fr pe fl with
